@@ -81,6 +81,10 @@ def readUintLoopR (w l : Nat) (r : Rd) : Res (Val × Rd) :=
   if goInt l < 0 then .ok (.nat 0, r) 0
   else (bytesLoopR (· % 256 ^ w) l 0 r).bind fun (v, r') => .ok (.nat v, r') 0
 
+/-- natural and time fields: the length must be 1, 2, 4 or 8 (repair F-13e), then the byte loop -/
+def readNatLoopR (l : Nat) (r : Rd) : Res (Val × Rd) :=
+  if natLenOk l then readUintLoopR 8 l r else .err 0
+
 /-- `reader.ReadWire(int(l))` -/
 def readWireR (l : Nat) (r : Rd) : Res (Val × Rd) :=
   if goInt l < 0 then .err 0
@@ -226,9 +230,9 @@ def readMapR (rk rv : Nat → Bool → Rd → Res (Val × Rd)) (vt : Nat) (l : N
 mutual
 /-- `GenReadFrom` of one field over a reader positioned after the L field -/
 def readKindR : Kind → Nat → Bool → Rd → Res (Val × Rd)
-  | .natural _, l, _, r => readUintLoopR 8 l r
+  | .natural _, l, _, r => readNatLoopR l r
   | .time _, l, _, r =>
-      (readUintLoopR 8 l r).bind fun
+      (readNatLoopR l r).bind fun
         | (.nat ms, r') => .ok (.nat (min ms 9223372036854 * 1000000), r') 0
         | x => .ok x 0
   | .fixedUint 1 _, _, _, r => (rdByte r).bind fun (x, r') => .ok (.nat x, r') 0
